@@ -29,7 +29,9 @@ TRUSTED_EXTRA = [
     "harness/jsbridge.py under python3-vt: jsonschema 4.26 as the independent evaluator of the implementation's schema (custom type checker and pattern keyword for the stated reading)",
 ]
 HDR = HEADER.replace("Corr.Check.", "Corr.Check Model.Schema Model.SchemaSat Corr.SchemaCheck.")
-RELAX = ["anyof", "notblank", "anchored", "pyunique"]
+import itertools as _it
+RELAX1 = ["anyof", "notblank", "anchored", "pyunique"]
+RELAX = ["+".join(c) for r in (1, 2, 3, 4) for c in _it.combinations(RELAX1, r)]     # singles first, then combinations
 KNOWN_SIG = {"anyof": "C11:oneOf-overlap", "notblank": "C11:notblank-line-terminator",
              "anchored": "C11:regex-unanchored", "pyunique": "C11:unique-typed"}
 
@@ -121,7 +123,7 @@ def frag(rng: random.Random, depth: int, lazy_ok: bool, guarded: bool = False):
         return ("DictAnyV", ks, None, None, rng.random() < 0.5)
     if r < 0.68:
         return G.gen_classv(rng, sub, lambda: None, lambda has: None,
-                            cid=rng.choice([G.C_DATA, G.C_NAMED, G.C_TYPED, G.C_TYPED2, G.C_BASE2, G.C_TYPED_ALLREQ]))[:7] + (None,)
+                            cid=rng.choice([G.C_DATA, G.C_NAMED, G.C_TYPED, G.C_TYPED2, G.C_BASE2, G.C_TYPED_ALLREQ, G.C_FACTORY]))[:7] + (None,)
     if r < 0.80:
         return ("UnionV", [sub_(guarded) for _ in range(rng.choice([1, 2, 2, 3]))])
     if r < 0.90:
@@ -416,8 +418,10 @@ def classify(c: JCase, res: dict) -> Optional[dict]:
     fixes = [h for h in RELAX if res["variants"].get(h, [None])[0] == c.accepts]
     direction = "accepts" if c.accepts else "rejects"
     if len(fixes) >= 1:
-        h = fixes[0]
-        return {"signature": KNOWN_SIG[h], "what": f"validator {direction} the value, the schema does not; they agree when the schema is read with relaxation '{h}'"}
+        h = fixes[0]            # the smallest set of relaxed readings that explains the disagreement
+        return {"signature": KNOWN_SIG[h.split("+")[0]],
+                "what": f"validator {direction} the value, the schema does not; they agree when the schema is read with relaxation '{h}'"
+                        + (" (several recorded divergences meet in this case)" if "+" in h else "")}
     a2 = accepts_lastwins(c)
     if a2 is not None and (a2 == b or any(res["variants"].get(h, [None])[0] == a2 for h in RELAX)):
         return {"signature": "C11:keyword-overwritten",
